@@ -190,9 +190,49 @@ structure Render where
 def outDefR (o : OutDef) : Bytes :=
   (if o.dir then [100, 105, 114, 58, 58] else [102, 105, 108, 101, 58, 58]) ++ o.path
 
+/-- INTERIM rendering of the dependency part of the key. Since the repair of the dependency-identity defect the real key
+    ties every dependency output hash to the dependency's *label* (`hashTargetDefinition` writes label/hash pairs). The
+    build model's key-state carries the hashes in the order of the target's `hdeps` but not the labels themselves, so the
+    label of the i-th dependency is rendered as its position (`u64be i`): for one target definition positions and labels
+    determine each other. Replacing this by the real labels needs `Exec.KeyState.deps : List (Lbl × OH κ)`. -/
+def depPairsFrom (R : Render) : Nat → List (OH Bytes) → List (Bytes × Bytes)
+  | _, [] => []
+  | i, oh :: t => (u64be i, R.ohR oh) :: depPairsFrom R (i + 1) t
+
+theorem depPairs_snd (R : Render) : ∀ (i : Nat) (l : List (OH Bytes)), (depPairsFrom R i l).map Prod.snd = l.map R.ohR
+  | _, [] => rfl
+  | i, _ :: t => by simp [depPairsFrom, depPairs_snd R (i + 1) t]
+
+theorem depPairs_length (R : Render) : ∀ (i : Nat) (l : List (OH Bytes)), (depPairsFrom R i l).length = l.length
+  | _, [] => rfl
+  | i, _ :: t => by simp [depPairsFrom, depPairs_length R (i + 1) t]
+
+theorem depPairs_mem (R : Render) : ∀ (i : Nat) (l : List (OH Bytes)) (p : Bytes × Bytes), p ∈ depPairsFrom R i l →
+    ∃ j oh, i ≤ j ∧ j < i + l.length ∧ p = (u64be j, R.ohR oh)
+  | _, [], _, h => by cases h
+  | i, oh :: t, p, h => by
+    simp only [depPairsFrom, List.mem_cons] at h
+    rcases h with rfl | h
+    · exact ⟨i, oh, Nat.le_refl _, by simp, rfl⟩
+    · obtain ⟨j, oh', h1, h2, h3⟩ := depPairs_mem R (i + 1) t p h
+      exact ⟨j, oh', by omega, by simp; omega, h3⟩
+
+theorem depPairs_nodup (R : Render) : ∀ (i : Nat) (l : List (OH Bytes)), i + l.length ≤ 2 ^ 64 →
+    ((depPairsFrom R i l).map Prod.fst).Nodup
+  | _, [], _ => by simp [depPairsFrom]
+  | i, oh :: t, h => by
+    simp only [depPairsFrom, List.map_cons, List.nodup_cons]
+    refine ⟨?_, depPairs_nodup R (i + 1) t (by simp at h; omega)⟩
+    intro hm
+    obtain ⟨p, hp, he⟩ := List.mem_map.1 hm
+    obtain ⟨j, oh', h1, h2, h3⟩ := depPairs_mem R (i + 1) t p hp
+    rw [h3] at he
+    have : j = i := u64be_inj (by simp at h; omega) (by simp at h; omega) he
+    omega
+
 def render (R : Render) (ks : Exec.KeyState Bytes) : Grog.KeyState :=
   { label := ks.label, command := R.cmdR ks.cmd, inputs := ks.inputs.map (·.1), content := contentOf ks.inputs,
-    outputs := ks.outs.map outDefR, deps := ks.deps.map R.ohR, fingerprint := ks.fp, platform := some ks.plat }
+    outputs := ks.outs.map outDefR, deps := depPairsFrom R 0 ks.deps, fingerprint := ks.fp, platform := some ks.plat }
 
 /-- the build parameters with the real key: `GetTargetChangeHash` of the rendered key-state -/
 def realParams (R : Render) (run : Cmd → View → RunRes) (fx : Fixes) : Params Bytes :=
@@ -250,7 +290,10 @@ theorem goodK_real (R : Render) (run : Cmd → View → RunRes) (fx : Fixes) (hR
     rintro a b ⟨wa, fa⟩ ⟨wb, fb⟩ hk
     obtain ⟨h1, h2, h3, h4, h5, h6, _, _⟩ := (C09.key_eq_iff R.H hR.hH hR.hU _ _ wa wb).1 hk
     refine ⟨h1, isEmpty_of_perm_map outDefR a.outs b.outs h5, ?_⟩
-    apply hR.runCongr a b h2 _ h6
+    have h6' : (a.deps.map R.ohR).Perm (b.deps.map R.ohR) := by
+      have := h6.map Prod.snd
+      simpa only [render, depPairs_snd] using this
+    apply hR.runCongr a b h2 _ h6'
     intro pv
     constructor
     · exact pairs_of_stateEq R a b fa fb h3 h4 pv
@@ -261,12 +304,15 @@ theorem goodK_real (R : Render) (run : Cmd → View → RunRes) (fx : Fixes) (hR
   hermetic := hR.hermetic
   admKs := by
     rintro t fs ohs ⟨hl, hc, hi, ho, hd, hf, hfk, hp⟩ hv hlen
-    refine ⟨⟨hl, hc, ?_, ho, ?_, hf, hfk, ?_, ?_⟩, functional_map fs t.inputs⟩
+    refine ⟨⟨hl, hc, ?_, ho, ?_, ?_, hf, hfk, ?_, ?_⟩, functional_map fs t.inputs⟩
     · show SmallList ((t.inputs.map fun p => (p, fs p)).map (·.1))
       simpa [List.map_map, Function.comp_def] using hi
-    · show SmallList (ohs.map R.ohR)
-      exact ⟨by rw [List.length_map, hlen]; exact hd, fun x hx => by
-        obtain ⟨oh, _, rfl⟩ := List.mem_map.1 hx; exact hR.ohSmall oh⟩
+    · show SmallKV (depPairsFrom R 0 ohs)
+      refine ⟨by rw [depPairs_length, hlen]; exact hd, fun x hx => ?_⟩
+      obtain ⟨j, oh, _, _, rfl⟩ := depPairs_mem R 0 ohs x hx
+      exact ⟨by show (u64be j).length < 2 ^ 64; rw [length_u64be]; decide, hR.ohSmall oh⟩
+    · show ((depPairsFrom R 0 ohs).map Prod.fst).Nodup
+      exact depPairs_nodup R 0 ohs (by rw [Nat.zero_add, hlen]; exact Nat.le_of_lt hd)
     · intro p hpp
       simp only [render, keyState, Option.some.injEq] at hpp
       rw [← hpp]; exact hp
